@@ -676,7 +676,13 @@ pub fn sheet(r: &mut R) -> String {
     for _ in 0..1 + r.b(4) {
         match r.b(10) {
             0 => s.push_str(r.pick(&["@media print { p{color:red;} }", "@import 'x';", "@charset \"u\";", "@x [a(b)] {c}", "@font-face{font-family:x;}", "@media (a:b) and (c) { }", "@x # ;", "@import url(https://f.example/css2?family=R:wght@400;700&display=swap);", "@import url(data:text/css;base64,cHt9);", "@x-junk [a;b] foo;", "@y (a;b) [c;(d;e)] ;", "@z f(a;b){q{r:s;}}"])),
-            1 => s.push_str(r.pick(&["%%% {x:y;}", "p{{}}", "} p{color:red;}", "p{color:red;", "<!-- p{color:red;} -->", "p{color:é;}", ".é{color:red;}"])),
+            1 => s.push_str(r.pick(&["%%% {x:y;}", "p{{}}", "} p{color:red;}", "p{color:red;", "<!-- p{color:red;} -->", "p{color:é;}", ".é{color:red;}",
+                // selectors the grammar accepts although no style guide would: leading and repeated child combinators, whose
+                // matching climbs past the root element to the document node (added after a mutation of `CombChild` on a
+                // node without parent, first judged equivalent, turned out to be reachable through `a > > b`)
+                "> > html{color:#010203}", "> > > body{background-color:#040506}", ">>>>>> em{color:#070809}", "> > > > > > li{color:#0a0b0c}",
+                "div > > p{color:#0d0e0f}", "* > > > > *{background-color:#101112}", "> p{color:#131415}", "> > > > p{color:#161718}",
+                "ul > > > > > li{color:#191a1b}", "> html{color:#1c1d1e}"])),
             2 => {
                 // generated content on every kind of element, table parts included (insert_child at the start and at the end)
                 let el = *r.pick(&[&"p", &"div", &"li", &"ul", &"ol", &"table", &"tr", &"td", &"th", &"tbody", &"blockquote", &"h1", &"h2", &"a", &"span", &"em", &"pre", &"dl", &"dt", &"dd", &"code", &"strong"]);
